@@ -325,7 +325,7 @@ End Steps.
 (** ** what the kernel answers is what the oracle accepts for that call *)
 
 Lemma classify_err_pos : forall k o e, classify k o = CErr e -> 0 < e.
-Proof. intros k o e H. destruct k, o; simpl in H; inversion H; unfold EBADF, ENOTSOCK; lia. Qed.
+Proof. intros k o e H. destruct k, o; simpl in H; inversion H; unfold EPERM, EBADF, ENOTSOCK; lia. Qed.
 
 Lemma firstn_nil {A} : forall n, firstn n (@nil A) = [].
 Proof. destruct n; auto. Qed.
